@@ -308,11 +308,21 @@ package ugo
 //@ ensures[reuse]  err == nil && vm.curFrame == old(vm.curFrame) ==> vm.curFrame.errHandlers == nil && vm.ip == -1
 //@ ensures[fresh]  err == nil && vm.curFrame != old(vm.curFrame) ==> vm.curFrame.errHandlers == nil && vm.curFrame.fn == cfunc && vm.curFrame.basePointer == old(vm.sp)-numArgs && vm.ip == -1 && vm.sp == old(vm.sp)-numArgs+cfunc.NumLocals
 //@ ensures[error]  err != nil ==> vm.curFrame == old(vm.curFrame) && vm.ip == old(vm.ip)
+//@ ensures[bind]     err == nil && flags == 0 ==> forall i int :: 0 <= i && i < specFixedParams(cfunc) ==> vm.stack[vm.curFrame.basePointer+i] == old(verifrt.Snap(vm.stack[:]))[old(vm.sp)-numArgs+i]
+//@ ensures[bindrest] err == nil && flags == 0 && cfunc.Variadic && cfunc.NumParams >= 1 ==> specVarArgs(vm.stack[vm.curFrame.basePointer+cfunc.NumParams-1], old(verifrt.Snap(vm.stack[:]))[old(vm.sp)-numArgs+cfunc.NumParams-1:old(vm.sp)])
+//@ ensures[undef]    err == nil ==> forall i int :: cfunc.NumParams <= i && i < cfunc.NumLocals ==> vm.stack[vm.curFrame.basePointer+i] == Undefined
+//@ split returns
 //@ modifies vm.sp, vm.ip, vm.stack, vm.frameIndex, vm.curInsts, vm.curFrame, vm.curFrame.errHandlers, vm.curFrame.ip
 //@ modifies vm.frames[vm.frameIndex].fn, vm.frames[vm.frameIndex].freeVars, vm.frames[vm.frameIndex].errHandlers, vm.frames[vm.frameIndex].basePointer
 //@ loop 0 invariant numParams <= i && vm.sp == old(vm.sp) && vm.curFrame == old(vm.curFrame) && vm.ip == old(vm.ip) && vm.frameIndex == old(vm.frameIndex)
-//@ loop 1 invariant i <= vm.sp && vm.sp == old(vm.sp) && vm.curFrame == old(vm.curFrame)
-//@ property C03
+//@ loop 0 invariant flags == 0 ==> forall k int :: 0 <= k && k < specFixedParams(cfunc) ==> vm.stack[basePointer+k] == old(verifrt.Snap(vm.stack[:]))[basePointer+k]
+//@ loop 0 invariant flags == 0 && cfunc.Variadic && numParams >= 1 ==> specVarArgsIn(vm.stack[basePointer+numParams-1], old(verifrt.Snap(vm.stack[:]))[basePointer+numParams-1:old(vm.sp)], vm.stack[:])
+//@ loop 0 invariant forall k int :: numParams <= k && k < i ==> vm.stack[basePointer+k] == Undefined
+//@ loop 1 invariant i <= vm.sp && vm.sp == old(vm.sp) && vm.curFrame == old(vm.curFrame) && curBp+numLocals <= newSp
+//@ loop 1 invariant flags == 0 ==> forall k int :: 0 <= k && k < specFixedParams(cfunc) ==> vm.stack[curBp+k] == old(verifrt.Snap(vm.stack[:]))[basePointer+k]
+//@ loop 1 invariant flags == 0 && cfunc.Variadic && numParams >= 1 ==> specVarArgsIn(vm.stack[curBp+numParams-1], old(verifrt.Snap(vm.stack[:]))[basePointer+numParams-1:old(vm.sp)], vm.stack[:])
+//@ loop 1 invariant forall k int :: numParams <= k && k < numLocals ==> vm.stack[curBp+k] == Undefined
+//@ property C03 C14 C02
 
 //@ func ReadOperands
 //@ params numOperands ins operands
@@ -497,3 +507,31 @@ package ugo
 //@ ensures[reg]   specPoolHas(v, vm)
 //@ modifies vm.bytecode.FileSet, vm.bytecode.Constants, vm.bytecode.NumModules, vm.bytecode.Main, vm.constants, vm.modulesCache, vm.pool, vm.noPanic, v.vms, v.vms[*]
 //@ property C14
+
+//@ func (*vmPool)._release
+//@ params v vm
+//@ requires v != nil && vm != nil && vm.bytecode != nil
+//@ ensures[unreg] !specPoolHas(v, vm)
+//@ ensures[wiped] vm.bytecode == old(vm.bytecode) && vm.bytecode.Main == nil && vm.bytecode.FileSet == nil && vm.bytecode.Constants == nil && vm.bytecode.NumModules == 0
+//@ ensures[zero]  vm.constants == nil && vm.globals == nil && vm.modulesCache == nil && vm.pool.root == nil && vm.sp == 0 && vm.ip == 0 && vm.curFrame == nil && vm.err == nil && !vm.noPanic
+//@ ensures[stack] forall k int :: 0 <= k && k < stackSize ==> vm.stack[k] == nil
+//@ modifies *
+//@ property C14
+
+// Parameter binding when a function is entered from Go (Run / Invoker):
+// fixed parameters get the arguments in order, a variadic last parameter gets
+// an array of the remaining arguments, every other local starts undefined.
+// xOpCallCompiled (in-script calls) is proved against the same clauses below.
+//@ func (*VM).initLocals
+//@ params vm args
+//@ requires vm != nil && vm.bytecode != nil && vm.bytecode.Main != nil && specObjsOK(args) && len(args) < 1<<30
+//@ requires 0 <= vm.bytecode.Main.NumParams && vm.bytecode.Main.NumParams <= vm.bytecode.Main.NumLocals && vm.bytecode.Main.NumLocals <= stackSize
+//@ ensures[undef]    forall i int :: vm.bytecode.Main.NumParams <= i && i < vm.bytecode.Main.NumLocals ==> vm.stack[i] == Undefined
+//@ ensures[fixed]    !vm.bytecode.Main.Variadic && len(args) >= vm.bytecode.Main.NumParams ==> forall i int :: 0 <= i && i < vm.bytecode.Main.NumParams ==> vm.stack[i] == args[i]
+//@ ensures[leading]  vm.bytecode.Main.Variadic && len(args) >= vm.bytecode.Main.NumParams-1 ==> forall i int :: 0 <= i && i < vm.bytecode.Main.NumParams-1 ==> vm.stack[i] == args[i]
+//@ ensures[variadic] vm.bytecode.Main.Variadic && vm.bytecode.Main.NumParams >= 1 && len(args) >= vm.bytecode.Main.NumParams-1 ==> specVarArgs(vm.stack[vm.bytecode.Main.NumParams-1], args[vm.bytecode.Main.NumParams-1:])
+//@ requires verifrt.Disjoint(args, vm.stack[:])
+//@ loop 0 invariant forall k int :: 0 <= k && k < i ==> locals[k] == Undefined
+//@ modifies vm.stack
+//@ split returns
+//@ property C14 C02
